@@ -205,16 +205,11 @@ pub fn run(r: &Report, which: &str) {
             pairs: gen::pool_with_edge_space()
                 .into_iter()
                 .map(|d| {
-                    // 10 atoms for short delimiters; 7 for the self-overlapping spellings the
-                    // property names; 6 for the other long ones (their alphabets have 15-20 atoms)
-                    let named = ["<!-- <", "/* <", "// --", "aab"].contains(&d.ds) && d.de != ">";
-                    let n = if d.ds.chars().count() + d.de.chars().count() <= 4 {
-                        10
-                    } else if named {
-                        7
-                    } else {
-                        6
-                    };
+                    // as many atoms as keep the pair's space below ~1.5e8 strings (alphabets have
+                    // 4..20 atoms), at most 10, at least 6
+                    let k = gen::tok_atoms(d.ds, d.de, &["a", " "], true).len() as f64;
+                    let n = ((1.5e8f64).ln() / k.ln()).floor() as usize;
+                    let n = n.clamp(6, 10);
                     (d, n)
                 })
                 .collect(),
